@@ -40,6 +40,23 @@ type Ctx struct {
 	Direct   int // evaluations of the property made directly on the implementation (no model operation)
 	Distinct map[string]struct{}
 	Extra    map[string]interface{}
+	// process-level sharding of the per-scheme suites: shard i of k handles the schemes with index ≡ i (mod k).
+	// The per-scheme random stream is re-seeded from (seed, suite, scheme index), so the operations are
+	// the same however the suite is sharded.
+	ShardI, ShardK int
+}
+
+// Scheme starts the part of a suite that belongs to the scheme with index idx; false = another shard's.
+func (c *Ctx) Scheme(idx int) bool {
+	if c.ShardK > 1 && idx%c.ShardK != c.ShardI {
+		return false
+	}
+	h := int64(0)
+	for _, b := range []byte(c.Suite) {
+		h = h*131 + int64(b)
+	}
+	c.Rng = rand.New(rand.NewSource(c.Seed*1000003 + h*7919 + int64(idx)*104729 + 17))
+	return true
 }
 
 func (c *Ctx) Thorough() bool { return c.Tier == "thorough" }
@@ -127,6 +144,7 @@ func main() {
 	seed := fs.Int64("seed", 1, "PRNG seed")
 	tier := fs.String("tier", "quick", "quick|thorough")
 	replay := fs.String("replay", "", "replay file (json object of strings)")
+	shard := fs.String("shard", "", "i/k: handle only the schemes with index ≡ i (mod k)")
 	fs.Parse(os.Args[2:])
 	s, ok := suites[name]
 	if !ok {
@@ -146,6 +164,9 @@ func main() {
 		Suite: name, Seed: *seed, Tier: *tier, Rng: rand.New(rand.NewSource(*seed)),
 		ops: bufio.NewWriterSize(fo, 1<<20), out: bufio.NewWriterSize(fg, 1<<20),
 		Stats: map[string]int{}, Distinct: map[string]struct{}{}, Extra: map[string]interface{}{},
+	}
+	if *shard != "" {
+		fmt.Sscanf(*shard, "%d/%d", &c.ShardI, &c.ShardK)
 	}
 	if *replay != "" {
 		b, err := os.ReadFile(*replay)
